@@ -288,6 +288,16 @@ def fam_sequences():
         ("seq:swap", "stel c = [1, 2, 3]; c[0] = c[0 - 1]; c[%s] = c[%s]; c" % (H0, H1)),
         ("seq:lengte-args", 'print("x"); lengte([1], [2])'),
         ("seq:lengte-int", 'print("x"); lengte(%s)' % H0),
+        # the value read from a string is a NEW string: writing through either side is invisible to the other
+        # (strings of exactly one character, the first / last character, non-ASCII, inside a list, passed to a function)
+        ("seq:str-char-is-fresh:one", 'stel s = "k"; stel c = s[%s - 1]; c[0] = "xy"; [s, c, lengte(s)]' % H0),
+        ("seq:str-char-is-fresh:one-src", 'stel s = "é"; stel c = s[0]; s[0] = "zz"; [s, c, lengte(c)]'),
+        ("seq:str-char-is-fresh:two", 'stel s = "ab"; stel c = s[%s]; c[0] = "Q"; stel d = s[%s]; s[0] = "w"; [s, c, d]' % (H0, H1)),
+        ("seq:str-char-is-fresh:nested", 'stel w = ["a", "bc", ""]; stel u = w[0]; stel c = u[0]; c[0] = "Q"; stel v = w[1]; stel d = v[0 - 1]; d[0] = "R"; [w, c, d]'),
+        ("seq:str-char-is-fresh:fn", 'functie eerste(t) { t[0] }; functie zet(t) { t[0] = "!"; t }; stel s = "x"; stel c = eerste(s); zet(c); [s, c]'),
+        ("seq:str-char-is-fresh:loop", 'stel s = "a"; stel acc = []; stel i = 0; zolang i < 2 { stel c = s[0]; c[0] = "n"; i += 1; }; s'),
+        ("seq:list-literal-is-fresh", "functie mk() { [1, 2] }; stel a = mk(); stel b = mk(); a[%s] = 9; [a, b]" % H0),
+        ("seq:list-elem-array-is-shared", "stel in = [1]; stel a = [in, in]; stel x = a[%s]; x[0] = 5; [a, in]" % H0),
     ]
     return out
 
@@ -334,6 +344,9 @@ def fam_boundary():
         ("bnd:div-zero-local", "functie f(n) { n / 0 }; f(%s)" % H0),
         ("bnd:rem-zero-local", "functie f(n) { 5 %% n }; f(%s - %s)" % (H0, H1)),
         ("bnd:float-div-zero", "[1.0 / 0.0, 0.0 / 0.0, 1.0 % 0.0]"),
+        ("bnd:nan-ordering", "stel n = 0.0 / 0.0; [n < 1.0, n <= 1.0, n > 1.0, n >= 1.0, 1.0 < n, 1.0 >= n, n == n, n != n, n < n]"),
+        ("bnd:inf-ordering", "stel i = 1.0 / 0.0; stel m = 0.0 - i; [i > 1.0, m < i, i == i, i - i < 1.0, i + m >= 0.0, m <= m, 0.0 * i > 1.0]"),
+        ("bnd:nan-in-condition", 'stel n = 0.0 / 0.0; stel k = 0; zolang n < 1.0 { k += 1; als k > 2 { stop; } }; als n >= 0.0 { print("ge") } anders { print("niet ge") }; k'),
         ("bnd:self-init-global", "stel x = x"),
         ("bnd:self-init-global-arith", 'print("a"); stel x = x + 1'),
         ("bnd:return-top", "antwoord %s" % H0),
@@ -402,6 +415,15 @@ def fam_builtins():
         out.append(("blt:arity2:" + b, 'print("x"); %s(1, 2)' % b))
         out.append(("blt:of-fn:" + b, 'print("x"); %s(functie() { 1 })' % b))
         out.append(("blt:of-arr:" + b, 'print("x"); %s([1, 2])' % b))
+    # number -> text -> number on floats whose shortest spelling needs 16-17 significant digits (concrete values: the text of
+    # a float is outside what the solver decides, DESIGN.md 4.3-5; the real interpreter must agree with the reference spelling)
+    out += [
+        ("blt:float-text-17-digits", "stel x = 0.1 + 0.2; stel y = 1.0 / 3.0; [string(x), float(string(x)) == x, string(y), float(string(y)) == y]"),
+        ("blt:float-text-large", "stel g = 123456789.0 * 987654.321; [string(g), float(string(g)) == g, string(0.0 - g)]"),
+        ("blt:float-text-small", "stel t = 1.0 / 3000000.0; [string(t), float(string(t)) == t]"),
+        ("blt:float-print-17-digits", 'print(0.1 + 0.2); print("{} en {}", 1.0 / 3.0, 2.5); print([0.7 * 3.0, 1.1 * 1.1])'),
+        ("blt:float-text-sum", 'stel s = 0.0; stel i = 0; zolang i < 10 { s = s + 0.1; i += 1; }; [string(s), s == 1.0, float(string(s)) == s]'),
+    ]
     return out
 
 
@@ -429,6 +451,43 @@ def fam_exhaustive(max_len=3):
             # 'b = f(b)' and friends are always legal thanks to the prelude
             body = " ".join(atoms[i] for i in seq)
             out.append(("exh:" + "-".join(map(str, seq)), pre + body + " [a, b]"))
+    return out
+
+
+def fam_loop_bodies(max_len=2, contexts=("top", "fn")):
+    """all sequences of up to max_len statements over a loop-body alphabet (index assignment, exits of the loop under
+    conditions, nested conditionals with and without else, block-local declarations, calls), placed in a loop at top level
+    and in a loop inside a function; the observing expression reads everything the body can touch"""
+    atoms = [
+        "l[i] = i + %s;" % H0,
+        "als i == %s { stop; };" % H1,
+        "als i == %s { volgende; };" % H1,
+        "als l[i] == %s { l[i] = 9; stop; };" % H0,
+        "stel t = i * 2; acc += t;",
+        "acc = acc + l[i];",
+        "{ stel u = acc; acc = u + 1; };",
+        "acc += f(i);",
+        "l[i];",
+        "als i > 0 { als i == %s { stop; } };" % H1,
+        "als i > 0 { als acc > %s { volgende; }; acc += 1; } anders { acc += 2; };" % H0,
+        "als i > 0 { acc += 1; als acc > %s { stop; } } anders als i == 0 { acc += 5; } anders { acc += 7; };" % H0,
+        "l[i] = [acc, 0.5][0];",
+        "EXIT",
+    ]
+    out = []
+    for ctx in contexts:
+        for n in range(1, max_len + 1):
+            for seq in itertools.product(range(len(atoms)), repeat=n):
+                body = " ".join(atoms[k] for k in seq)
+                if ctx == "top":
+                    body = body.replace("EXIT", "als acc > %s { stop; };" % H1)
+                    prog = ("functie f(x) { x + 1 }; stel l = [3, 1, 2]; stel acc = 0; stel i = 0 - 1; "
+                            "zolang i < 2 { i += 1; %s }; [l, acc, i]" % body)
+                else:
+                    body = body.replace("EXIT", "als acc > %s { antwoord [l, acc, i, 0]; };" % H1)
+                    prog = ("functie f(x) { x + 1 }; functie run(l) { stel acc = 0; stel i = 0 - 1; "
+                            "zolang i < 2 { i += 1; %s }; [l, acc, i] }; stel r = run([3, 1, 2]); stel after = [7, 8]; [r, after]" % body)
+                out.append(("loop:%s:%s" % (ctx, "-".join(map(str, seq))), prog))
     return out
 
 
@@ -698,5 +757,17 @@ def fam_gc():
         ("gc:error-with-live-heap", pre + "stel a = [1.5, \"x\", [2.5]]; noop(); print(a); a[%s]" % H0),
         ("gc:error-inside-call-with-live-heap", pre + "functie bad(v) { stel t = [v, 3.5]; t[5] }; stel a = [1.5]; print(a); bad(a)"),
         ("gc:builtin-results", pre + 'stel t = [string(12), type(1.5), float(3), string(2.5)]; noop(); stel u = [string(7)]; [t, u]'),
+        # collections at a return INTO ANOTHER FUNCTION (call depth >= 2): a fresh heap value that is reachable only through an
+        # array that is older than the inner call
+        ("gc:inner-call-stores-float-into-older-array", pre + "functie put(l, v) { l[0] = v * 2.0; 0 }; functie outer(l) { put(l, 0.75); noop(); stel junk = [9.5, 8.5]; [l[0], junk] }; stel a = [0.5]; outer(a)"),
+        ("gc:inner-call-stores-string-into-older-array", pre + 'functie put(l, i) { stel s = "ab"; s[0] = "q"; l[i] = s; 0 }; functie outer(l) { put(l, 0); put(l, 1); noop(); stel junk = "zzzz"; junk[0] = "y"; [l, junk] }; stel a = [0, 0]; outer(a)'),
+        ("gc:inner-call-stores-list-into-older-local", pre + "functie put(l, v) { l[1] = [v + 0.5, [v]]; 0 }; functie outer(n) { stel mine = [n, 0]; put(mine, 1.25); noop(); stel junk = [7.5, [6.5]]; stel in = mine[1]; [in[0], in[1], junk] }; outer(%s)" % H0),
+        ("gc:three-deep-store-into-global-array", pre + "stel g = [0, 0, 0]; functie c(i) { g[i] = 0.5 + 1.0; 0 }; functie b(i) { c(i); noop(); 0 }; functie a(i) { b(i); noop(); stel junk = [3.5, 4.5, 5.5]; junk }; a(0); a(1); a(2); g"),
+        ("gc:recursive-fill", pre + "functie fill(l, n) { als n < 0 { antwoord 0; }; l[n] = [n, 0.5 + 1.0]; fill(l, n - 1); noop(); 0 }; stel a = [0, 0, 0]; fill(a, 2); stel junk = [[9, 9.5], [8, 8.5]]; [a, junk]"),
+        # results with nested heap values: the hand-over to the caller must take the whole graph
+        ("gc:result-nested-two-levels", pre + "[[1.5 + 1.0]]"),
+        ("gc:result-nested-three-levels", pre + 'stel x = ["a"]; noop(); [x, [x, [2.5, "deep"]], %s]' % H0),
+        ("gc:result-from-function-nested", pre + 'functie build(n) { [n, ["diep", [n + 0.5]]] }; build(2.0)'),
+        ("gc:result-shared-substructure", pre + 'stel s = [0.25, "w"]; stel r = [s, [s, [s]]]; noop(); r'),
     ]
     return out
